@@ -186,6 +186,11 @@ def run(ctx) -> None:
     r09_7(ctx, P)
     r09_8(ctx)
     r09_9(ctx)
+    # the degenerate schedules — one child advanced at a time, in every order — decided completely: each child
+    # receives every item exactly once, in source order (object model, abstract evaluation against itertools.tee)
+    from . import objmodel
+    objmodel.tee_histories(ctx, "R09.10", depth=5)
+    ctx.floor("tee_operations", 1000)
     ctx.floor("pull_sites", 1)
     ctx.floor("tee_finally_copies", 2)
 
@@ -241,6 +246,11 @@ def _broadcast_loops(cfg, main, P, item_names) -> List[Node]:
 
 
 def r09_5(ctx, P) -> None:
+    # decided on the evaluated construction (object model) whatever statements build it; the statement-shape
+    # rule below is the fallback when the construction cannot be evaluated
+    from . import objmodel
+    if objmodel.tee_construction(ctx, "R09.5", P) is not None:
+        return
     init = ctx.inlined(ctx.unit("itertools.Tee.__init__"))  # children may be built by a private helper method
     peer = ctx.unit("itertools.tee_peer")
     node = init.node
